@@ -58,3 +58,53 @@ func c07CapabilityMap(maxN int) {
 // C07CapabilityMap: arbitrary bytes into the capability map decoder.
 func C07CapabilityMap()     { c07CapabilityMap(12) }
 func C07CapabilityMapDeep() { c07CapabilityMap(18) }
+
+// zzCapAnyValue: a value of any kind a peer may put in a capability map, containers included.
+func zzCapAnyValue(label string) value.Value {
+	switch sym.Choose(label+"-kind", 7) {
+	case 0:
+		return value.String(sym.Str(label+"-s", 1))
+	case 1:
+		return value.Uint(sym.U32(label + "-u"))
+	case 2:
+		return value.Bool(sym.Bool(label + "-b"))
+	case 3:
+		return value.List([]value.Value{})
+	case 4:
+		return value.List([]value.Value{value.Int(sym.I32(label + "-e"))})
+	case 5:
+		return value.Raw([]byte{sym.U8(label + "-r")})
+	default:
+		return value.Void()
+	}
+}
+
+// C07CapabilityMapStructured: a well-formed capability map whose entries are written by hand, so that
+// the same key may appear twice (a Go map cannot express that) with values of any kind: the decoder
+// answers with a map or an error, never a crash; a map it returns has at most as many entries as were sent.
+func C07CapabilityMapStructured() {
+	n := 1 + sym.Choose("entries", 2)
+	keys := []string{KeyUser, KeyUser, "x"}
+	var buf bytes.Buffer
+	buf.Write([]byte{byte(n), 0, 0, 0})
+	sameKey := sym.Bool("same-key-twice")
+	for i := 0; i < n; i++ {
+		k := keys[i]
+		if !sameKey && i == 1 {
+			k = keys[2]
+		}
+		buf.Write([]byte{byte(len(k)), 0, 0, 0})
+		buf.WriteString(k)
+		sym.Assert(zzCapAnyValue("v").Write(&buf) == nil, "structured/encode-ok")
+	}
+	in := buf.Bytes()
+	sym.Bounded(16<<20+64*len(in), len(in)+8, func() {
+		m, err := ReadCapabilityMap(bytes.NewReader(in))
+		if err == nil {
+			sym.Assert(len(m) <= n, "structured/more-entries-than-sent")
+			sym.Reach("decoded")
+		} else {
+			sym.Reach("rejected")
+		}
+	})
+}
